@@ -311,6 +311,22 @@ def m_slice_len(it, st, callee, args, dest_tid, site):
 def m_get_unchecked(it, st, callee, args, dest_tid, site):
     sl = as_slice(it, st, args[0])
     idx = args[1]
+    if isinstance(idx, Agg) and it.ty(idx.tid)['def'].split('<')[0].split('::')[-1] == 'Range' and all(isinstance(z, E) for z in idx.fields):
+        # UNSAFE unchecked sub-slice s.get_unchecked(a..b): the precondition a <= b <= len is recorded as two O-slice
+        # obligations in the `idx < len` form the unsafe-operation check discharges:  b < len + 1  and  a < b + 1
+        a, b = idx.fields
+        buf = it.read(st, sl.obj, sl.path)
+        it.rec.unsafe_ops.append(dict(kind='get_unchecked', site=site, stack=st.stack, pc=st.pc))
+        one = usz(1)
+        for i_, l_ in ((b, X.binop('add', sl.len, one, wrap=False)), (a, X.binop('add', b, one, wrap=False))):
+            it.rec.ob(kind='O-slice', site=site, stack=st.stack, pc=st.pc, idx=i_, len=l_, slice=sl,
+                      buf=(buf.name if isinstance(buf, Buf) else 'array'), mut='mut' in callee['def'], loops=st.loops)
+        ln = None
+        if b.op == 'iadd' and len(b.args) == 2:
+            if b.args[0] is a: ln = b.args[1]
+            elif b.args[1] is a: ln = b.args[0]
+        if ln is None: ln = X.binop('sub', b, a, wrap=False)
+        return [(st, Slice(sl.obj, sl.path, X.binop('add', sl.start, a), ln, sl.mut))]
     if not isinstance(idx, E):
         raise Unsupported('get_unchecked with non-usize index')
     buf = it.read(st, sl.obj, sl.path)
@@ -344,10 +360,29 @@ def m_split_first(it, st, callee, args, dest_tid, site):
 @model('core::slice::index::<impl std::ops::Index<I> for [T]>::index', 'core::slice::index::<impl std::ops::IndexMut<I> for [T]>::index_mut',
        doc='safe range indexing s[a..]: panics (never UB) when a > len; result is the tail slice')
 def m_slice_index(it, st, callee, args, dest_tid, site):
-    sl = as_slice(it, st, args[0])
-    r = args[1]
+    return range_index(it, st, as_slice(it, st, args[0]), args[1], site)
+
+def range_index(it, st, sl, r, site):
+    """safe indexing of a slice by a range: s[a..], s[a..b], s[..b]: panics (never UB) when out of order / out of range"""
     rt = it.ty(r.tid) if isinstance(r, Agg) else None
-    if rt is None or not rt['def'].endswith('RangeFrom'):
+    nm = rt['def'].split('<')[0].split('::')[-1] if rt is not None else ''
+    if nm == 'Range' or nm == 'RangeTo':
+        a, b = (r.fields[0], r.fields[1]) if nm == 'Range' else (usz(0), r.fields[0])
+        if not (isinstance(a, E) and isinstance(b, E)): raise Unsupported(f"slice index by {r!r}")
+        for ok, msg in ((X.binop('le', a, b), 'slice index starts after its end'), (X.binop('le', b, sl.len), 'range end index out of range')):
+            dec = it.decide(st, ok)
+            if dec is not True:
+                it.rec.panic(kind='slice-index', msg=msg, fn=site[0], ln=site[1], pc=st.pc, stack=st.stack, cond=ok, definite=(dec is False))
+                if dec is False:
+                    raise PathEnd('panic')
+                st.assume(ok); st.nopanic = st.nopanic | frozenset((ok.id,))
+        ln = None
+        if b.op == 'iadd' and len(b.args) == 2:               # (a + c) - a = c   (row slices `&v[start..start + w]`)
+            if b.args[0] is a: ln = b.args[1]
+            elif b.args[1] is a: ln = b.args[0]
+        if ln is None: ln = X.binop('sub', b, a, wrap=False)
+        return [(st, Slice(sl.obj, sl.path, X.binop('add', sl.start, a), ln, sl.mut))]
+    if rt is None or nm != 'RangeFrom':
         raise Unsupported(f"slice index by {r!r}")
     a = r.fields[0]
     ok = X.binop('le', a, sl.len)
@@ -357,7 +392,7 @@ def m_slice_index(it, st, callee, args, dest_tid, site):
                      stack=st.stack, cond=ok, definite=(dec is False))
         if dec is False:
             raise PathEnd('panic')
-        st.assume(ok)
+        st.assume(ok); st.nopanic = st.nopanic | frozenset((ok.id,))
     return [(st, Slice(sl.obj, sl.path, X.binop('add', sl.start, a), X.binop('sub', sl.len, a, wrap=False), sl.mut))]
 
 @model('<std::vec::Vec<T, A> as std::ops::Index<I>>::index', '<std::vec::Vec<T, A> as std::ops::IndexMut<I>>::index_mut',
@@ -366,6 +401,8 @@ def m_vec_index(it, st, callee, args, dest_tid, site):
     v = vec_of(it, st, args[0])
     sl = Slice(v.f['buf'], (), usz(0), st.heap[v.f['buf']].len, 'mut' in callee.get('def', ''))
     idx = args[1]
+    if isinstance(idx, Agg):
+        return range_index(it, st, sl, idx, site)          # v[a..b]: the sub-slice of the whole-buffer slice
     if not (isinstance(idx, E) and idx.ty == X.USIZE):
         raise Unsupported(f"Vec index by {idx!r}")
     ok = X.binop('lt', idx, sl.len)
@@ -375,7 +412,7 @@ def m_vec_index(it, st, callee, args, dest_tid, site):
                      stack=st.stack, cond=ok, definite=(dec is False))
         if dec is False:
             raise PathEnd('panic')
-        st.assume(ok)
+        st.assume(ok); st.nopanic = st.nopanic | frozenset((ok.id,))
     return [(st, Ptr(sl.obj, sl.path + (('slice', sl), ('i', idx)), sl.mut))]
 
 # ------------------------------------------------------------- aligned_vec / v_frame
@@ -708,8 +745,12 @@ def m_any(it, st, callee, args, dest_tid, site):
             states = nxt
         return states
     if d['kind'] == 'plane_iter':
-        # exists (x,y) in [0,w) x [0,h): pred(plane.p(x,y)).  p() is interpreted from MIR for a
-        # symbolic in-range position so that its (safe) bounds check is recorded.
+        return [(st, plane_exists(it, st, d, f, site, negate=False))]
+    raise Unsupported(f"any over symbolic-length {d['kind']}")
+
+def plane_exists(it, st, d, f, site, negate):
+        """the fresh boolean  exists (x,y) in [0,w) x [0,h): pred(plane.p(x,y))  (pred = !f when negate: `all(f)` is its negation)"""
+        # p() is interpreted from MIR for a symbolic in-range position so that its (safe) bounds check is recorded.
         w, h = d['w'], d['h']
         x = X.fresh(X.USIZE, 'px', 0, None)
         y = X.fresh(X.USIZE, 'py', 0, None)
@@ -729,12 +770,12 @@ def m_any(it, st, callee, args, dest_tid, site):
         if len(outs2) != 1:
             raise Unsupported('any-predicate with several outcomes')
         pred = outs2[0][1]
+        if negate: pred = X.unop('not', pred)
         res = X.fresh(X.TB, 'exists')
         it.rec.events.append(dict(ev='exists', sym=res, pred=pred, sample=sample, x=x, y=y, w=w, h=h, plane=d['plane'], site=site,
                                   pc=s2.pc[len(st.pc):]))
         # the width==0 corner of PlaneIter::next (width()-1) is a panic, not UB
-        return [(st, res)]
-    raise Unsupported(f"any over symbolic-length {d['kind']}")
+        return res
 
 def d_plane_elem(it, st, d):
     plane = deref(it, st, d['plane'])
@@ -761,6 +802,9 @@ def m_all(it, st, callee, args, dest_tid, site):
     p, f = args
     v = it.read(st, p.obj, p.path) if isinstance(p, Ptr) else p
     d = iter_describe(it, st, v)
+    if d is not None and d.get('kind') == 'plane_iter':
+        # all(f) over the samples of a plane = not exists a sample with !f (the same abstraction `any` uses)
+        return [(st, X.unop('not', plane_exists(it, st, d, f, site, negate=True)))]
     if d is None or not (d['n'].is_const and d['n'].val <= 8 and d.get('elem')):
         raise Unsupported(f"all over {v!r}")
     states = [(st, X.cbool(True))]
